@@ -29,3 +29,65 @@ package beacon
 //@   ensures deneb: fork_idx(epoch, d.Spec.ALTAIR_FORK_EPOCH, d.Spec.BELLATRIX_FORK_EPOCH, d.Spec.CAPELLA_FORK_EPOCH, d.Spec.DENEB_FORK_EPOCH, d.Spec.ELECTRA_FORK_EPOCH, d.Spec.FULU_FORK_EPOCH) == 4 ==> r == d.Deneb
 //@   ensures electra: fork_idx(epoch, d.Spec.ALTAIR_FORK_EPOCH, d.Spec.BELLATRIX_FORK_EPOCH, d.Spec.CAPELLA_FORK_EPOCH, d.Spec.DENEB_FORK_EPOCH, d.Spec.ELECTRA_FORK_EPOCH, d.Spec.FULU_FORK_EPOCH) == 5 ==> r == d.Electra
 //@   ensures fulu: fork_idx(epoch, d.Spec.ALTAIR_FORK_EPOCH, d.Spec.BELLATRIX_FORK_EPOCH, d.Spec.CAPELLA_FORK_EPOCH, d.Spec.DENEB_FORK_EPOCH, d.Spec.ELECTRA_FORK_EPOCH, d.Spec.FULU_FORK_EPOCH) == 6 ==> r == d.Fulu
+
+// ---------------------------------------------------------------- chain view (assumed interface models, C12)
+// Queries are uninterpreted functions of the ghost version gvver of the node's
+// view (declared in package gossipval's contracts).
+
+//@ sort RootT = common.Root
+//@ sort SlotT = common.Slot
+//@ sort CkptT = common.Checkpoint
+//@ sort EntryI = ChainEntry
+//@ sort EpcP = *common.EpochsContext
+//@ sort StateI = common.BeaconState
+//@ ufun ch_known(int, RootT) bool
+//@ ufun ch_entry(int, RootT) EntryI
+//@ ufun ch_fin(int) CkptT
+//@ ufun ch_unknown(int, RootT, RootT) bool
+//@ ufun ch_insub(int, RootT, RootT) bool
+//@ ufun ch_towards_err(int, RootT, SlotT) bool
+//@ ufun ch_towards(int, RootT, SlotT) EntryI
+//@ ufun ce_step(EntryI) int
+//@ ufun ce_epc_err(EntryI) bool
+//@ ufun ce_epc(EntryI) EpcP
+//@ ufun ce_state_err(EntryI) bool
+//@ ufun ce_state(EntryI) StateI
+
+//@ func (c Chain) ByBlock(root) (entry, ok)
+//@   trusted
+//@   opt noalloc
+//@   ensures ok == ch_known(gvver, root)
+//@   ensures ok ==> entry == ch_entry(gvver, root) && entry != nil
+
+//@ func (c Chain) FinalizedCheckpoint() r
+//@   trusted
+//@   opt noalloc
+//@   ensures r == ch_fin(gvver)
+
+//@ func (c Chain) InSubtree(anchor, root) (unknown, inSubtree)
+//@   trusted
+//@   opt noalloc
+//@   ensures unknown == ch_unknown(gvver, anchor, root) && inSubtree == ch_insub(gvver, anchor, root)
+
+//@ func (c Chain) Towards(ctx, fromBlockRoot, toSlot) (entry, err)
+//@   trusted
+//@   opt noalloc
+//@   ensures (err != nil) == ch_towards_err(gvver, fromBlockRoot, toSlot)
+//@   ensures err == nil ==> entry == ch_towards(gvver, fromBlockRoot, toSlot) && entry != nil
+
+//@ func (e ChainEntry) Step() r
+//@   trusted
+//@   opt noalloc
+//@   ensures r == ce_step(e)
+
+//@ func (e ChainEntry) EpochsContext(ctx) (epc, err)
+//@   trusted
+//@   opt noalloc
+//@   ensures (err != nil) == ce_epc_err(e)
+//@   ensures err == nil ==> epc == ce_epc(e) && epc != nil && epc.ValidatorPubkeyCache != nil
+
+//@ func (e ChainEntry) State(ctx) (state, err)
+//@   trusted
+//@   opt noalloc
+//@   ensures (err != nil) == ce_state_err(e)
+//@   ensures err == nil ==> state == ce_state(e) && state != nil
